@@ -128,6 +128,14 @@ Word Granularity(Byte Header, Byte Segment) {
     }
 }
 
+/* a record header that cannot be read completely: either an I/O error, or
+   the file ends in the middle of its record structure */
+
+static void HeaderReadFail(char const* Name) {
+    ChkIO(Name);
+    FormatError(Name, "unexpected end of file");
+}
+
 void ReadRecordHeader(
         Byte* Header, Byte* CPU, Byte* Segment, Byte* Gran, char const* Name, FILE* f) {
 #ifdef _WIN32
@@ -143,19 +151,22 @@ void ReadRecordHeader(
 #endif
 
     if (fread(Header, 1, 1, f) != 1) {
-        ChkIO(Name);
+        HeaderReadFail(Name);
     }
     if ((*Header != FileHeaderEnd) && (*Header != FileHeaderStartAdr)) {
         if ((*Header == FileHeaderDataRec) || (*Header == FileHeaderRDataRec)
             || (*Header == FileHeaderRelocRec) || (*Header == FileHeaderRRelocRec)) {
             if (fread(CPU, 1, 1, f) != 1) {
-                ChkIO(Name);
+                HeaderReadFail(Name);
             }
             if (fread(Segment, 1, 1, f) != 1) {
-                ChkIO(Name);
+                HeaderReadFail(Name);
             }
             if (fread(Gran, 1, 1, f) != 1) {
-                ChkIO(Name);
+                HeaderReadFail(Name);
+            }
+            if (*Gran == 0) {
+                FormatError(Name, "granularity 0");
             }
         } else if (*Header <= 0x7f) {
             *CPU     = *Header;
